@@ -1034,7 +1034,9 @@ def _single_exit(stmts, result):
 
 
 def _inlinable(fdef):
-    if fdef.decorator_list or fdef.args.vararg or fdef.args.kwarg or fdef.args.kwonlyargs or fdef.args.posonlyargs:
+    if fdef.decorator_list or fdef.args.kwarg or fdef.args.kwonlyargs or fdef.args.posonlyargs:
+        return False
+    if fdef.args.vararg and fdef.args.defaults:
         return False
     for x in ast.walk(fdef):
         if x is fdef:
@@ -1066,6 +1068,13 @@ def _instantiate(fdef, args, defaults_from):
     _inline_counter[0] += 1
     pre = "_h%d_" % _inline_counter[0]
     params = [a.arg for a in fdef.args.args]
+    if fdef.args.vararg:
+        # f(a, b, *rest): the extra positional arguments are evaluated at the call, in order, into a tuple
+        if len(args) < len(params):
+            raise _NoInline("arguments do not cover the parameters")
+        extra = list(args[len(params):])
+        args = list(args[:len(params)]) + [ast.Tuple(elts=extra, ctx=ast.Load())]
+        params = params + [fdef.args.vararg.arg]
     body = [b for b in fdef.body if not (isinstance(b, ast.Expr) and isinstance(b.value, ast.Constant) and isinstance(b.value.value, str))]
     body = [_clone(b) for b in body]
     stored = set(params)
@@ -1257,6 +1266,9 @@ def inline_unknown_helpers(tree, modname, foreign=None):
                         i += 1
                         continue
                     fdef, args = callee_of(call, cls)
+                    if fdef is not None and call.keywords and fdef.args.vararg:
+                        i += 1
+                        continue
                     if fdef is not None and call.keywords:
                         # keywords bind by name; evaluation order (positionals, then keywords as written) is kept
                         # because _instantiate evaluates non-trivial arguments in parameter order only if that is the same order
